@@ -650,9 +650,16 @@ public:
       "fundamental or enum types. For other types, call "
       "copy_and_verify on each element --- a[i].copy_and_verify(...)");
 
-    std::unique_ptr<T_CopyAndVerifyRangeEl[]> target =
-      copy_and_verify_range_helper(count);
-    return verifier(std::move(target));
+    if constexpr (detail::rlbox_is_tainted_volatile_v<T_Wrap<T, T_Sbx>>) {
+      // The pointer lives in sandbox memory: read it exactly once, so that the
+      // range that is checked is the range that is copied
+      tainted<T, T_Sbx> local = impl();
+      return local.copy_and_verify_range(verifier, count);
+    } else {
+      std::unique_ptr<T_CopyAndVerifyRangeEl[]> target =
+        copy_and_verify_range_helper(count);
+      return verifier(std::move(target));
+    }
   }
 
   /**
@@ -673,6 +680,13 @@ public:
                   "copy_and_verify_string only allows char*");
 
     using T_VerifParam = detail::func_first_arg_t<T_Func>;
+
+    if constexpr (detail::rlbox_is_tainted_volatile_v<T_Wrap<T, T_Sbx>>) {
+      // The pointer lives in sandbox memory: read it exactly once, so that the
+      // string that is measured and checked is the string that is copied
+      tainted<T, T_Sbx> local = impl();
+      return local.copy_and_verify_string(verifier);
+    }
 
     auto start = impl().get_raw_value();
     if_constexpr_named(
